@@ -3,6 +3,9 @@ Driver commands for the compositor model (C11, C13).
 
   comp.pixel      <request>   -> ok  c0,c1,... <shape> <alpha>     (tabulating evaluator; = model, `compositeDocF_eq`)
   comp.pixel.ref  <request>   -> the same through `compositeDoc` itself (exponential in the stack length; small trees only)
+  comp.spec       <request>   -> ok  p0,p1,... <shape> <alpha>     the PUBLISHED model (`Model/CompositeSpec.lean`, tabulating
+                                 evaluator = `specDoc`, `specDocF_eq`): group colour PREMULTIPLIED by the group alpha, group
+                                 shape, group alpha.  `compositor_refines_spec_doc`: p_i = c_i * alpha of `comp.pixel`, same shape, alpha.
 
 One request = ONE tab field of space-separated tokens (rationals `n/d` or `n`, booleans `0`/`1`):
 
@@ -23,6 +26,7 @@ A non-separable mode in a one-channel document is answered `err Unsupported` (th
 import Driver.Util
 import Driver.Blend
 import PsdVerif.Model.CompositeEval
+import PsdVerif.Model.CompositeSpecEval
 
 namespace Driver.Composite
 open PsdVerif PsdVerif.Composite PsdVerif.Blend Driver Driver.Blend
@@ -210,9 +214,23 @@ def run (fast : Bool) (args : List String) : String :=
       else answer (compositeDoc B q.V q.x q.y q.color q.alpha q.layers) q.nch
   | _ => badRequest
 
+/-- the published model on the same request (the backdrop colour of the request is straight: premultiply it) -/
+def runSpec (args : List String) : String :=
+  match args with
+  | [field] =>
+    match pRequest ((field.splitOn " ").filter (fun t => t != "")) with
+    | none => badRequest
+    | some q =>
+      if q.cm == .l && listUsesNonSep q.layers then "err\tUnsupported" else
+      let B := blendOf q.cm
+      let P : Color := fun ch => q.alpha * q.color ch
+      answer (specDocF q.nch B q.V q.x q.y P q.alpha q.layers) q.nch
+  | _ => badRequest
+
 def cmds : List (String × Cmd) := [
   ("comp.pixel", run true),
-  ("comp.pixel.ref", run false)
+  ("comp.pixel.ref", run false),
+  ("comp.spec", runSpec)
 ]
 
 end Driver.Composite
